@@ -1,7 +1,38 @@
-(* Props/C03.v — FMA (theorems to follow). *)
-From Coq Require Import ZArith.
-From Dec Require Import L3.Decimal L3.Arith.
+(* Props/C03.v — FMA computes x*y+u with a single rounding.  Statements only
+   (AddPost / OpPost / result_spec as in Props/C01.v). *)
+From Coq Require Import ZArith QArith.
+From Dec Require Import Base.QPow L3.Decimal L3.Round L3.Arith Spec.Rounding L3.ArithProofs L3.FmaProofs.
 Open Scope Z_scope.
+
+(* finite x, y, u (u non-zero): the receiver holds the exact x*y+u rounded once, with the
+   IEEE sign rule for an exactly zero sum; the same statement covers the receiver being u
+   itself (zu = true).  Hypothesis forced by the code and kept visible: the exact product's
+   magnitude lies in the finite range (outside it: known finding K3). *)
+Theorem C03_fma : forall zu z x y u,
+  WF x -> WF y -> WF u -> dform x = Ffinite -> dform y = Ffinite -> dform u = Ffinite ->
+  0 <= prec z <= MaxPrec -> (zu = true -> z = u) ->
+  mdigits (mant x) + mdigits (mant y) < 4294967296 - 18 ->
+  (scaled 1 (MinExp - 1) <= mag x * mag y)%Q -> (mag x * mag y < scaled 1 MaxExp)%Q ->
+  (forall p', WF p' -> dform p' = Ffinite -> (mag p' == mag x * mag y)%Q -> add_span p' u + 40 < 4294967296 - 18) ->
+  AddPost (eff_prec3 z x y u) (dmode z)
+          ((if xorb (neg x) (neg y) then - (mag x * mag y) else mag x * mag y) + sval u)
+          (FMA zu z x y u).
+Proof. exact FMA_correct. Qed.
+Print Assumptions C03_fma.
+
+Theorem C03_fma_zero_addend : forall zu z x y u,
+  WF x -> WF y -> dform x = Ffinite -> dform y = Ffinite -> dform u = Fzero ->
+  0 <= prec z <= MaxPrec -> 0 <= prec u <= MaxPrec ->
+  mdigits (mant x) + mdigits (mant y) < 4294967296 - 18 ->
+  OpPost (eff_prec3 z x y u) (dmode z) (xorb (neg x) (neg y)) (mag x * mag y) (FMA zu z x y u).
+Proof. exact FMA_zero_addend. Qed.
+Print Assumptions C03_fma_zero_addend.
+
+(* C03_fma_refuted_range (K3): outside the range hypothesis the statement is false; the witness
+   FMA(1e1073741824, 1e1073741823, -5e2147483646) = +Inf is replayed by harness/props/C03.py
+   against the code on every run (KNOWN-FINDING K3).  Aliasing of z with x or y does not occur in
+   the value-level model (operands are read before the receiver is written); z == u is the zu flag. *)
+
 (* FMA differs from Mul followed by Add exactly when the intermediate rounding matters *)
 Example C03_examples :
   let x := mkDec [1100000000000000000] 1 2 ToNearestEven Exact Ffinite false in     (* 1.1 *)
